@@ -12,12 +12,14 @@
    helper equal to it); doubles are opaque bit patterns. *)
 From Coq Require Import ZArith NArith List Bool.
 From CyVerif Require Import Lib.CInt.
+From CyVerif Require Model.M_IntFmt.     (* the RFC 3629 table utf8_ref and the strict decoder of C18, not imported *)
 Import ListNotations.
 Open Scope Z_scope.
 
 Inductive exc :=
 | TypeError | ValueError | OverflowError | AttributeError
-| UnicodeError          (* UnicodeEncodeError / UnicodeDecodeError: subclasses of ValueError *)
+| UnicodeEncodeError | UnicodeDecodeError      (* subclasses of ValueError *)
+| SystemError           (* a C-API call made while an exception is pending *)
 | IndexTooMany          (* IndexError too many values found during array assignment *)
 | IndexNotEnough        (* IndexError not enough values found during array assignment *)
 | Unmodelled.           (* outside the model (ill-typed C value, float -> C int via nb_int, ...) *)
@@ -258,82 +260,108 @@ Inductive stype := SBytes | SByteArray | SUnicode.          (* c_string_type *)
 Inductive senc := ENone | EAscii | EUtf8 | ELatin1.          (* c_string_encoding ('' / ascii / utf8 / other 8-bit) *)
 Record scfg := { sc_type : stype; sc_enc : senc }.
 
+(* Text is a list of code points (N).  CPython's codecs are the documented contract:
+   utf-8 = the RFC 3629 table (M_IntFmt.utf8_ref, the reference encoder of C18) for every code
+   point below 0x110000 that is not a surrogate, UnicodeEncodeError otherwise; decoding = the
+   strict decoder M_IntFmt.utf8_decode (shortest form only, no surrogates, <= U+10FFFF);
+   ascii = identity below 128, Unicode{En,De}codeError otherwise. *)
+Definition zs (l : list N) : list Z := map Z.of_N l.
+Definition ns (l : list Z) : list N := map Z.to_N l.
+
 Open Scope N_scope.
 Definition is_surrogate (c : N) : bool := (0xD800 <=? c) && (c <=? 0xDFFF).
+Definition encodable (c : N) : bool := (c <? 0x110000) && negb (is_surrogate c).
 Definition utf8_enc1 (c : N) : option (list N) :=
-  if c <? 0x80 then Some [c]
-  else if c <? 0x800 then Some [0xC0 + c / 64; 0x80 + c mod 64]
-  else if c <? 0x10000 then
-    if is_surrogate c then None
-    else Some [0xE0 + c / 4096; 0x80 + (c / 64) mod 64; 0x80 + c mod 64]
-  else if c <? 0x110000 then
-    Some [0xF0 + c / 262144; 0x80 + (c / 4096) mod 64; 0x80 + (c / 64) mod 64; 0x80 + c mod 64]
-  else None.
+  if encodable c then Some (ns (M_IntFmt.utf8_ref (Z.of_N c))) else None.
 Fixpoint utf8_encode (s : list N) : res (list N) :=
   match s with
   | [] => Ok []
   | c :: r => match utf8_enc1 c with
-              | None => Err UnicodeError
+              | None => Err UnicodeEncodeError
               | Some bs => match utf8_encode r with Ok t => Ok (bs ++ t) | Err e => Err e end
               end
   end.
-Definition cont (b : N) : bool := (0x80 <=? b) && (b <? 0xC0).
-Definition rcons (c : N) (r : res (list N)) : res (list N) := rmap (cons c) r.
-(* strict UTF-8 decoder (CPython: no overlong forms, no surrogates, <= 0x10FFFF) *)
-Fixpoint utf8_decode (b : list N) : res (list N) :=
-  match b with
-  | [] => Ok []
-  | b0 :: r =>
-    if b0 <? 0x80 then rcons b0 (utf8_decode r)
-    else if b0 <? 0xC2 then Err UnicodeError
-    else if b0 <? 0xE0 then
-      match r with
-      | b1 :: r1 => if cont b1 then rcons ((b0 - 0xC0) * 64 + (b1 - 0x80)) (utf8_decode r1)
-                    else Err UnicodeError
-      | _ => Err UnicodeError
-      end
-    else if b0 <? 0xF0 then
-      match r with
-      | b1 :: b2 :: r2 =>
-          let c := (b0 - 0xE0) * 4096 + (b1 - 0x80) * 64 + (b2 - 0x80) in
-          if cont b1 && cont b2 && negb (c <? 0x800) && negb (is_surrogate c)
-          then rcons c (utf8_decode r2) else Err UnicodeError
-      | _ => Err UnicodeError
-      end
-    else if b0 <? 0xF5 then
-      match r with
-      | b1 :: b2 :: b3 :: r3 =>
-          let c := (b0 - 0xF0) * 262144 + (b1 - 0x80) * 4096 + (b2 - 0x80) * 64 + (b3 - 0x80) in
-          if cont b1 && cont b2 && cont b3 && negb (c <? 0x10000) && (c <? 0x110000)
-          then rcons c (utf8_decode r3) else Err UnicodeError
-      | _ => Err UnicodeError
-      end
-    else Err UnicodeError
+Definition utf8_decode (b : list N) : res (list N) :=
+  match M_IntFmt.utf8_decode (zs b) with
+  | Some l => Ok (ns l)
+  | None => Err UnicodeDecodeError
   end.
 Definition all_ascii (s : list N) : bool := forallb (fun c => c <? 0x80) s.
+
+(* a CPython str object (PEP 393): the storage kind and the ascii flag are functions of the
+   largest code point *)
+Definition maxchar (s : list N) : N := fold_right N.max 0 s.
+Inductive ukind := K1BYTE | K2BYTE | K4BYTE.
+Definition kind_of (s : list N) : ukind :=
+  if maxchar s <? 0x100 then K1BYTE else if maxchar s <? 0x10000 then K2BYTE else K4BYTE.
+Definition is_ascii (s : list N) : bool := maxchar s <? 0x80.          (* PyUnicode_IS_ASCII(o) *)
 Close Scope N_scope.
 
 Record codec := { cd_enc : list N -> res (list N); cd_dec : list N -> res (list N) }.
 Definition ascii_codec : codec :=
-  {| cd_enc := fun s => if all_ascii s then Ok s else Err UnicodeError;
-     cd_dec := fun b => if all_ascii b then Ok b else Err UnicodeError |}.
+  {| cd_enc := fun s => if all_ascii s then Ok s else Err UnicodeEncodeError;
+     cd_dec := fun b => if all_ascii b then Ok b else Err UnicodeDecodeError |}.
 Definition utf8_codec : codec := {| cd_enc := utf8_encode; cd_dec := utf8_decode |}.
 
-(* __Pyx_PyObject_AsStringAndSize: (pointer, length) = the whole byte string *)
 Definition str_accepts_unicode (e : senc) : bool :=
   match e with EAscii | EUtf8 => true | _ => false end.
+(* the specification: CPython's s.encode(E) where str objects are accepted at all *)
 Definition encode_with (e : senc) (s : list N) : res (list N) :=
   match e with
   | EAscii => cd_enc ascii_codec s
   | EUtf8 => cd_enc utf8_codec s
   | _ => Err TypeError          (* falls through to PyBytes_AsStringAndSize: expected bytes, str found *)
   end.
-Definition as_string_and_size (sc : scfg) (v : pyval) : res (list N) :=
-  match v with
-  | PStr s => encode_with (sc_enc sc) s
-  | PByteArray b | PBytes b => Ok b
+
+(* PyUnicode_AsUTF8AndSize / PyUnicode_AsUTF8: the UTF-8 form cached in the object (for an ASCII
+   object the character data itself); UnicodeEncodeError for lone surrogates *)
+Definition py_as_utf8 (s : list N) : res (list N) := utf8_encode s.
+
+(* __Pyx_PyUnicode_AsStringAndSize(o, &length): the bytes the returned pointer addresses, up to
+   the terminating NUL the object appends, and the value stored in *length.
+     ascii, full API   : if (PyUnicode_IS_ASCII(o)) { *length = PyUnicode_GET_LENGTH(o); return PyUnicode_AsUTF8(o); }
+                         else { PyUnicode_AsASCIIString(o); return NULL; }
+     ascii, limited API: result = PyUnicode_AsUTF8AndSize(o, length);
+                         [checked: if (!result) return NULL;]      <- missing in the code as it is
+                         if (PyUnicode_GetLength(o) != *length) { PyUnicode_AsASCIIString(o); return NULL; }
+     utf8              : return PyUnicode_AsUTF8AndSize(o, length);
+   Limited false = CYTHON_COMPILING_IN_LIMITED_API, the code as it is: when PyUnicode_AsUTF8AndSize
+   fails (lone surrogate) the post-check still runs and PyUnicode_AsASCIIString is called with the
+   codec error pending -> SystemError.  Limited true = with the NULL check (proposed fix). *)
+Inductive api := Full | Limited (checked : bool).
+Definition unicode_asas (a : api) (e : senc) (s : list N) : res (list N * nat) :=
+  match e with
+  | EUtf8 => rmap (fun b => (b, length b)) (py_as_utf8 s)
+  | EAscii =>
+      match a with
+      | Limited checked =>
+        match py_as_utf8 s with
+        | Err x => if checked then Err x else Err SystemError
+        | Ok b => if Nat.eqb (length s) (length b) then Ok (b, length b) else Err UnicodeEncodeError
+        end
+      | Full =>
+        if is_ascii s then rmap (fun b => (b, length s)) (py_as_utf8 s)
+        else Err UnicodeEncodeError
+      end
   | _ => Err TypeError
   end.
+
+(* __Pyx_PyObject_AsStringAndSize: (buffer, length) *)
+Definition obj_asas (a : api) (sc : scfg) (v : pyval) : res (list N * nat) :=
+  match v with
+  | PStr s => if str_accepts_unicode (sc_enc sc) then unicode_asas a (sc_enc sc) s
+              else Err TypeError        (* PyBytes_AsStringAndSize: expected bytes, str found *)
+  | PByteArray b | PBytes b => Ok (b, length b)
+  | _ => Err TypeError
+  end.
+(* what a (pointer, length) user such as std::string(data, length) sees; a length beyond the
+   buffer (a read past the terminating NUL) is outside the model *)
+Definition sized (p : list N * nat) : res (list N) :=
+  if Nat.leb (snd p) (length (fst p)) then Ok (firstn (snd p) (fst p)) else Err Unmodelled.
+Definition as_string_and_size_l (a : api) (sc : scfg) (v : pyval) : res (list N) :=
+  bind (obj_asas a sc v) sized.
+Definition as_string_and_size : scfg -> pyval -> res (list N) := as_string_and_size_l Full.
+
 Definition decode_with (e : senc) (b : list N) : res (list N) :=
   match e with
   | EAscii => cd_dec ascii_codec b
@@ -350,25 +378,39 @@ Definition from_string_and_size (sc : scfg) (b : list N) : res pyval :=
   end.
 
 (* std::string: length based in both directions *)
-Definition string_from_py (sc : scfg) (v : pyval) : res cval := rmap CBytes (as_string_and_size sc v).
+Definition string_from_py_l (a : api) (sc : scfg) (v : pyval) : res cval :=
+  rmap CBytes (as_string_and_size_l a sc v).
+Definition string_from_py : scfg -> pyval -> res cval := string_from_py_l Full.
 Definition string_to_py (sc : scfg) (c : cval) : res pyval :=
   match c with CBytes b => from_string_and_size sc b | _ => Err Unmodelled end.
 
-(* char*: __Pyx_PyObject_AsString drops the length, __Pyx_PyObject_FromString uses strlen *)
+(* char* / unsigned char*: __Pyx_PyObject_AsString drops the length (the C value is the pointer:
+   the whole buffer), __Pyx_PyObject_FromString uses strlen *)
 Fixpoint until_nul (b : list N) : list N :=
   match b with
   | [] => []
   | x :: r => if N.eqb x 0 then [] else x :: until_nul r
   end.
-Definition charp_from_py (sc : scfg) (v : pyval) : res cval := rmap CBytes (as_string_and_size sc v).
+Definition charp_from_py_l (a : api) (sc : scfg) (v : pyval) : res cval :=
+  rmap (fun p => CBytes (fst p)) (obj_asas a sc v).
+Definition charp_from_py : scfg -> pyval -> res cval := charp_from_py_l Full.
 Definition charp_to_py (sc : scfg) (c : cval) : res pyval :=
   match c with CBytes b => from_string_and_size sc (until_nul b) | _ => Err Unmodelled end.
-Definition charp_roundtrip (sc : scfg) (v : pyval) : res pyval := bind (charp_from_py sc v) (charp_to_py sc).
-Definition string_roundtrip (sc : scfg) (v : pyval) : res pyval := bind (string_from_py sc v) (string_to_py sc).
+Definition charp_roundtrip_l (a : api) (sc : scfg) (v : pyval) : res pyval :=
+  bind (charp_from_py_l a sc v) (charp_to_py sc).
+Definition string_roundtrip_l (a : api) (sc : scfg) (v : pyval) : res pyval :=
+  bind (string_from_py_l a sc v) (string_to_py sc).
+Definition charp_roundtrip : scfg -> pyval -> res pyval := charp_roundtrip_l Full.
+Definition string_roundtrip : scfg -> pyval -> res pyval := string_roundtrip_l Full.
+(* strlen(p) / s.size() of the converted argument *)
+Definition charp_strlen_l (a : api) (sc : scfg) (v : pyval) : res pyval :=
+  rmap (fun p => PInt (Z.of_nat (length (until_nul (fst p))))) (obj_asas a sc v).
+Definition string_size_l (a : api) (sc : scfg) (v : pyval) : res pyval :=
+  rmap (fun b => PInt (Z.of_nat (length b))) (as_string_and_size_l a sc v).
 
 (* ---------- C types ---------- *)
 
-Inductive leaf := LInt (w : Z) (sg : bool) | LDouble | LString.
+Inductive leaf := LInt (w : Z) (sg : bool) | LDouble | LString | LCharp.   (* std::string, [const] [unsigned] char* *)
 
 (* FNil / FCons are the member lists of TStruct / TUnion / TCTuple (kept inside the same
    inductive so that plain structural recursion and induction apply). *)
@@ -435,12 +477,14 @@ Definition leaf_from_py (sc : scfg) (l : leaf) (v : pyval) : res cval :=
   | LInt w sg => int_from_py w sg v
   | LDouble => double_from_py v
   | LString => string_from_py sc v
+  | LCharp => charp_from_py sc v
   end.
 Definition leaf_to_py (sc : scfg) (l : leaf) (c : cval) : res pyval :=
   match l, c with
   | LInt _ _, CInt z => Ok (PInt z)
   | LDouble, CDouble d => Ok (PFloat d)
   | LString, _ => string_to_py sc c
+  | LCharp, _ => charp_to_py sc c
   | _, _ => Err Unmodelled
   end.
 
